@@ -389,6 +389,104 @@ def route_group(rng, allow_repeats=False):
     return {"descrs": route_descrs(rng, objs, st, ptxt, allow_repeats), "ctx": {"domain": DOMAIN, "problem": ptxt}}
 
 
+# ----- OBSERVATION ONLY (wave 4): states that hold NEGATIVE ground literals
+# A GroundedPredicate carries an is_positive flag and a State takes whatever objects it is handed, so a state CAN be made
+# to hold "(not (p a))".  Such objects are outside C14's quantifier (a state is a set of ground FACTS; neither reader and
+# no successor produces one, both readers refuse the text, == tells {(not (p a))} from {} although both say p(a) is
+# false), so nothing here is judged against the property: what the library computes (text, ==, copy, typed text, its own
+# reader on the text) is recorded and compared with Model/State.v only (Corr.C14 CStateM / CRowM / CPairM).
+NEG_KIND = "negative-literals-observed"
+NEG_VIAS = ["ctor", "negated-copy", "flip", "plain-copy"]
+
+
+def is_model_only(g):
+    return g.get("kind") == NEG_KIND
+
+
+def literal_descr(x, pos, via, types, ptxt=None, calls=None):
+    p, args = x
+    sig = [["?a%d" % i, types.get(o, "a")] for i, o in enumerate(args)]
+    d = {"name": p, "sig": sig, "map": [[n, o] for (n, _), o in zip(sig, args)], "pos": pos, "via": via}
+    if via == "effect":
+        d["effect"] = {"domain": DOMAIN, "problem": ptxt, "action": calls[0], "args": calls[1]}
+    return d
+
+
+def deleting_call(x, names_a, rng):
+    """an action call of the fixed domain that has (not x) among its effects"""
+    p, args = x
+    if p == "p" and names_a:
+        return ("mv", [args[0], rng.choice(names_a)])
+    if p == "z" and names_a:
+        return ("setf", [rng.choice(names_a)])
+    return None
+
+
+def neg_group(rng):
+    objs = route_objects(rng)
+    types = dict(objs)
+    names_a = [n for n, t in objs if t in ("a", "b")]
+    st = route_state(rng, objs, False)
+    universe = fact_universe(objs)
+    negs = rng.sample(universe, min(len(universe), rng.randint(1, 3)))
+    for extra in (["z", []], ["p", [rng.choice(names_a)]]):
+        if rng.random() < 0.5 and extra not in negs:
+            negs.append(extra)
+    both = rng.random() < 0.4            # the state holds (p a) AND (not (p a)), or the negative literal instead of the fact
+    kept = {"facts": [x for x in st["facts"] if both or x not in negs], "fluents": st["fluents"]}
+    ptxt = problem_text(rng, objs, st)
+
+    def holding(via_of, late=False, init=False, shuffle=False):
+        base = {"facts": list(kept["facts"]), "fluents": list(kept["fluents"])}
+        if shuffle:
+            rng.shuffle(base["facts"])
+            rng.shuffle(base["fluents"])
+        d = ctor_from_abstract(base, types=types, init=init)
+        order = list(negs)
+        if shuffle:
+            rng.shuffle(order)
+        d["late"] = []
+        for x in order:
+            via = via_of(x)
+            call = deleting_call(x, names_a, rng) if via == "effect" else None
+            if via == "effect" and call is None:
+                via = "ctor"
+            lit = literal_descr(x, False, via, types, ptxt, call)
+            key = "(%s %s)" % (x[0], " ".join(n for n, _ in lit["sig"]))
+            if late:
+                d["late"].append([key, lit])
+                continue
+            for k, grp in d["preds"]:
+                if k == key:
+                    grp.insert(rng.randint(0, len(grp)) if shuffle else len(grp), lit)
+                    break
+            else:
+                d["preds"].insert(rng.randint(0, len(d["preds"])) if shuffle else len(d["preds"]), [key, [lit]])
+        return d
+    positive = {"facts": kept["facts"] + [x for x in negs if x not in kept["facts"]], "fluents": st["fluents"]}
+    dropped = {"facts": [x for x in st["facts"] if x not in negs], "fluents": st["fluents"]}
+    descrs = [
+        dict(ctor_from_abstract(st, types=types), kind="neg:facts-only"),
+        dict(holding(lambda x: "ctor"), kind="neg:constructor"),
+        dict(holding(lambda x: rng.choice(NEG_VIAS), init=True, shuffle=True), kind="neg:other-literal-objects"),
+        dict(holding(lambda x: rng.choice(NEG_VIAS), late=True), kind="neg:added-to-finished-state"),
+        dict(holding(lambda x: "effect", late=rng.random() < 0.5), kind="neg:grounded-delete-effects"),
+        {"route": "copy", "of": 1, "kind": "neg:copy"},
+        {"route": "copy", "of": 5, "kind": "neg:copy-of-copy"},
+        {"route": "copy", "of": 3, "kind": "neg:copy"},
+        {"route": "copy", "of": 4, "kind": "neg:copy"},
+        dict(ctor_from_abstract(positive, types=types), kind="neg:positive-forms"),
+        dict(ctor_from_abstract(dropped, types=types), kind="neg:literals-dropped"),
+    ]
+    # one literal fewer / another literal: unequal neighbours
+    if len(negs) > 1:
+        saved = list(negs)
+        negs.pop(rng.randrange(len(negs)))
+        descrs.append(dict(holding(lambda x: "ctor"), kind="neg:one-literal-fewer"))
+        negs[:] = saved
+    return {"descrs": descrs, "ctx": {"domain": DOMAIN, "problem": ptxt}, "kind": NEG_KIND}
+
+
 # ----- values that are Python ints (findings D90 / D91): PDDLFunction keeps the object it is given
 INT_VALUES = [0, 1, -1, 3, 10, -7, 42, 2 ** 53, -(2 ** 31), 10 ** 15]
 
@@ -958,6 +1056,10 @@ def build_groups(rng, tier):
         groups.append(dict(route_group(rng, allow_repeats=True), kind="routes-with-repeated-arguments"))
     for _ in range(6 if tier == "quick" else 24):
         groups.append(dict(int_group(rng), kind="int-values"))
+    # observation only (own generator: the stream of the judged groups is unchanged)
+    nrng = random.Random(rng.random())
+    for _ in range(6 if tier == "quick" else 40):
+        groups.append(neg_group(nrng))
     return groups
 
 
@@ -1134,7 +1236,8 @@ def run(args):
              "pairs_same_abstract_state_different_build": 0, "states": 0, "indep_deep_false": 0,
              "values": {"nan": 0, "neg_zero": 0, "inf": 0, "exponent_form_repr": 0, "subnormal_or_huge": 0, "other": 0},
              "states_with_repeated_fluent_argument": 0, "states_with_int_valued_fluent": 0, "empty_states": 0,
-             "library_readback_observed": 0,
+             "library_readback_observed": 0, "observed_only_states_with_negative_literal": 0, "observed_only_copy_equal": 0,
+             "observed_only_library_reader_refused_text": 0,
              "library_readback_equal": 0, "successors_with_expected_value": 0, "build_raised": 0,
              "sequence_noise": noise_stats, "observe_mutate_observe": omo_stats}
     ROWS_PER_LIT = 24
@@ -1153,6 +1256,17 @@ def run(args):
             return {"descrs": sub, "kind": g["kind"], "ctx": g.get("ctx")}, new
         # per-state and per-pair bookkeeping (python side: classification + distribution only)
         state_cases, pair_cases = [], []
+        # observation-only groups are compared with the model alone
+        sc, pc, rc = ("CStateM", "CPairM", "CRowM") if is_model_only(g) else ("CState", "CPair", "CRow")
+        obs_note = {"observation_only": "states holding negative ground literals are outside C14's quantifier: this case is compared "
+                                        "with the model only, a difference is a model / implementation drift, not a claimed violation of the property"} \
+            if is_model_only(g) else {}
+        if is_model_only(g):
+            stats["observed_only_states_with_negative_literal"] += sum(
+                1 for info in infos if any(not x["pos"] for _, grp in info.get("dump", EMPTY_DUMP)["preds"] for x in grp))
+            stats["observed_only_copy_equal"] += sum(1 for info in infos if info.get("copy_eq", {}).get("value") is True)
+            stats["observed_only_library_reader_refused_text"] += sum(
+                1 for info in infos for kk in ("rb_with", "rb_ded") if info.get(kk) is not None and "value" not in info[kk])
         for i, (d, info) in enumerate(zip(descrs, infos)):
             k = d.get("kind", "?")
             stats["states_by_kind"][k] = stats["states_by_kind"].get(k, 0) + 1
@@ -1179,8 +1293,8 @@ def run(args):
                        else "exponent_form_repr" if "e" in repr(v) else "other")
                 stats["values"][key] += 1
             rg, (si,) = replay_group([i])
-            state_cases.append({"lit": LazyLit(lambda env=env, i=i: "{| g_env := %s; g_cases := [CState %d] |}" % (env, i)),
-                                "input": {"group": rg, "state": si, "implementation": info},
+            state_cases.append({"lit": LazyLit(lambda env=env, i=i, sc=sc: "{| g_env := %s; g_cases := [%s %d] |}" % (env, sc, i)),
+                                "input": dict({"group": rg, "state": si, "implementation": info}, **obs_note),
                                 "nontrivial": bool(info.get("dump", EMPTY_DUMP)["preds"] or info.get("dump", EMPTY_DUMP)["fluents"]),
                                 "witness_of": g.get("witness_of"), "klass": klass_of(descrs, i)})
         for (i, j), pr in zip(all_pairs(n), r["pairs"]):
@@ -1193,17 +1307,17 @@ def run(args):
                 stats["pairs_same_abstract_state_different_build"] += 1
             rept = src_rep(descrs, i) or src_rep(descrs, j)
             rg, (si, sj) = replay_group([i, j])
-            pair_cases.append({"lit": LazyLit(lambda env=env, i=i, j=j, pr=pr: "{| g_env := %s; g_cases := [CPair %d %d %s] |}" % (
-                                   env, i, j, cobs_val(pr, cbool))),
-                               "input": {"group": rg, "pair": [si, sj], "implementation": pr},
+            pair_cases.append({"lit": LazyLit(lambda env=env, i=i, j=j, pr=pr, pc=pc: "{| g_env := %s; g_cases := [%s %d %d %s] |}" % (
+                                   env, pc, i, j, cobs_val(pr, cbool))),
+                               "input": dict({"group": rg, "pair": [si, sj], "implementation": pr}, **obs_note),
                                "nontrivial": i != j, "witness_of": g.get("witness_of"),
                                "klass": ("D91" if "D91" in (klass_of(descrs, i), klass_of(descrs, j)) else
                                          klass_of(descrs, i) or klass_of(descrs, j))})
         # literals: state cases + rows, split so that no literal carries more than ROWS_PER_LIT rows
-        rows = ["CRow %d %s" % (i, cstr("".join(pair_char(r["pairs"][i * n + j]) for j in range(n)))) for i in range(n)]
+        rows = ["%s %d %s" % (rc, i, cstr("".join(pair_char(r["pairs"][i * n + j]) for j in range(n)))) for i in range(n)]
         first = True
         for a in range(0, n, ROWS_PER_LIT):
-            cs = (["CTables"] + ["CState %d" % i for i in range(n)] if first else []) + rows[a:a + ROWS_PER_LIT]
+            cs = (["CTables"] + ["%s %d" % (sc, i) for i in range(n)] if first else []) + rows[a:a + ROWS_PER_LIT]
             lits.append("{| g_env := %s; g_cases := %s |}" % (env, clist(cs)))
             u = (1 + n if first else 0) + n * len(rows[a:a + ROWS_PER_LIT])
             units.append(u)
@@ -1256,6 +1370,9 @@ def run(args):
                    "dicts rebuilt, is_init flipped, GroundedEffect.apply on the state itself), fresh states with the new contents, a copy made now, a successor made now "
                    "are added, and EVERY state is dumped, observed and compared again against the contents it is intended to have at that moment -- one group per moment.  "
                    "Also observed since wave 3: typed_serialize() of the state and of its copy (model text; types dropped and re-read against the intended state) and hash(state).  "
+                   "OBSERVATION ONLY (not judged against the property): states made to hold negative ground literals through the public attributes "
+                   "(constructor, copy(is_negated=True), the flag assigned, the delete-effect literals the library grounds, added to a finished state), "
+                   "their copies and positive / dropped neighbours -- text, ==, copy, typed text and the library's reader are compared with the model alone.  "
                    "A case is non-trivial when the state is non-empty (state cases) or the two states are different objects (pair cases); distinct by input hash.")
     cov["samples"] = [c["input"] for c in cases[1:3]] + [c["input"] for c in cases[-2:]]
     rep.assumptions = [
@@ -1263,7 +1380,9 @@ def run(args):
         "values are compared through repr(): -0.0 and 0.0 are different values, nan is equal to itself (value_facts; theorems C14_eq_ieee_* state the exact difference to IEEE comparison)",
         "float(repr(x)) == x re-checked on every value of this run (%d values)" % len(ff["reprs"]),
         "ASCII names without blanks or parentheses",
-        "state facts are positive literals"]
+        "state facts are positive literals: a state that is made to hold a GroundedPredicate with is_positive = False is outside the "
+        "property's quantifier (a state is a set of ground facts; no reader and no successor produces such a state, both readers refuse "
+        "its text); group kind '%s' records what the library does with such objects and compares it with the model only" % NEG_KIND]
     if args.tier == "thorough" and not args.replay:
         run_coqchk(rep, PROP)
     return rep.finish()
